@@ -238,6 +238,20 @@ def run(ctx):
         if not x.startswith("ok "):
             pvlib.report_violation(ctx, f"table-bulk:{entry}:{n}", {"ops": [op], "impl": x[:300]},
                                    summary=f"{n} distinct keys inserted into a table of {entry}-byte entries: {x[:200]}")
+    # the same growth when the kernel refuses every large anonymous mapping (ENOMEM: address-space or overcommit limit): the table must
+    # carry on on the heap with identical answers.  The heap is told to hand out DIRTY blocks (malloc_fill_byte), as a long-running
+    # process's heap does, so memory that the table wrongly assumes to be zero shows.
+    for entry, n in ((8, 700_000), (16, 400_000)):
+        op = f"table.bulk {n} {ctx.seed} {entry} enomem"
+        e_ = pvlib.san_env()
+        e_["ASAN_OPTIONS"] += ":max_malloc_fill_size=1073741824:malloc_fill_byte=190"
+        x = pvlib.run_lines(ctx.impl(), [op], env=e_, timeout=900, stall=600)[0]
+        ctx.count("table.bulk.enomem", 1, [(entry, n)])
+        ctx.cov.setdefault("bulk_enomem", []).append(x[:100])
+        if not x.startswith("ok "):
+            pvlib.report_violation(ctx, f"table-bulk-enomem:{entry}:{n}", {"ops": [op], "impl": x[:300], "env": {"ASAN_OPTIONS": "...:max_malloc_fill_size=1073741824:malloc_fill_byte=190"}},
+                                   summary=f"{n} distinct keys inserted into a table of {entry}-byte entries while every anonymous mapping >= 1 MiB is refused (ENOMEM) and the heap hands out dirty blocks: {x[:200]}")
+            break
     if ctx.violations:
         return
     # large random histories (duplicates at random distance), answers + growth points
